@@ -1,6 +1,6 @@
 //go:build verif
 
-//verif:bounds tree step lemma: pool of K objects (quick 4, thorough 5) with every link field, live/freed flag and the free-list head symbolic, one operation (newObject / append / appendAfter / detach / free) with symbolic operands; lookups: fixed tree shapes, lookup expression of up to 9 symbolic bytes from a symbolic start scope
+//verif:bounds tree step lemma: pool of K objects (quick 4, thorough 5) with every link field, live/freed flag and the free-list head symbolic, one operation (newObject / append / appendAfter / detach / free) with symbolic operands; lookups: fixed tree shapes, lookup expression of up to 9 symbolic bytes from a symbolic start scope; find_scope_block: the shape the parser builds for a scoped object (Device -> unnamed scope block -> member) with three symbolic names, absolute / relative / dual-prefixed two-segment paths, parent-prefixed and single-segment lookups from the block
 //verif:assumes WF(tree) for the pre-state (links in range and live, parent/sibling links agree with the parent's child list in both directions, parent and sibling chains end within K steps, free list threads exactly the freed objects) and the documented operand preconditions (arguments live; an appended object is detached and not an ancestor of its new parent)
 package aml
 
